@@ -37,6 +37,28 @@ def fadt_programs(rng, th):
     return out
 
 
+def as_table_programs(subs, rng):
+    """the same option-call sequences with the entry added to its table: an option must not reach outside the entry
+    (the table's Length, checksum and count fields follow the entry's bytes and nothing else)"""
+    op_of = {}
+    for op, st in schema.OPSTRUCT.items():
+        op_of.setdefault(st, op)
+    kind_of = {op: k for k, ops in schema.TABLE_OPS.items() for op in ops}
+    out = []
+    for p in subs:
+        op = op_of.get(p.get("st"))
+        if p.get("fam") != "sub" or not op or not p.get("calls"):
+            continue
+        kind = p.get("kind", kind_of[op])
+        c = schema.gen_ctor(schema.Rand(rng), kind)
+        pre = list(p.get("pre", []))
+        e = {"op": op, "a": p["a"], "calls": p["calls"]}
+        if len(out) % 2:
+            e["probe"] = True       # the partially built entry is observed between its option calls
+        out.append({"fam": "table", "kind": kind, "ctor": c, "ops": pre + [e]})
+    return out
+
+
 def run(ctx):
     rng = vlib.Rng(ctx.seed)
     th = ctx.thorough()
@@ -62,6 +84,7 @@ def run(ctx):
     tabs = tc.mc_replays(ctx, ["FADT", "TCPA_SERVER"], 3, workers=8)
     tabs += fadt_programs(rng, th)
     tabs += tc.random_programs(rng, ["TCPA_SERVER", "FADT"], 600 if th else 120, [1, 3, 6, 12, 30])
+    tabs += as_table_programs(subs, rng)
     ctx.samples = tc.sample(subs, 2) + tc.sample(tabs, 1)
     ctx.distinct = tc.distinct(subs + tabs)
     vlib.run_and_judge(ctx, subs, "Trace_Sub.cfg", "Trace_Sub.tla", "c11s")
